@@ -301,6 +301,12 @@ class Registry:
                 and isinstance(v.d.vty, TList):
             from . import seqs
             return seqs.flatten_values(eng, v.d, line)
+        if isinstance(v, GenV) and not isinstance(start, (ConstSeq, ListV, str)):
+            from . import seqs
+            return seqs.sum_gen(eng, v, start, line)
+        if isinstance(v, ListV) and not isinstance(start, (ConstSeq, ListV, str)):
+            from . import seqs
+            return seqs.sum_list(eng, v, start, line)
         self._unsup('sum() over symbolic collection (give the enclosing function a contract)', line)
 
     def sorted_symbolic(self, eng, args, kw, line):
